@@ -22,7 +22,7 @@ Not decided: map semantics for overlapping ranges as values.
 import re
 
 from fvlib.core import (CFG, CallGraph, agg_blocks, assignments, call_blocks, calls, callee_matches, callee_name,
-                        describe, family, guards, guard_region, origins, short)
+                        closure_env, describe, family, guards, guard_region, origins, short, simplify_desc, subst_env)
 from fvlib.summ import ok_sites
 from fvlib import vm
 
@@ -245,7 +245,8 @@ def run(F, rep, tier, allfacts):
     for cn, cf in clos:
         gets = [[describe(cf, a, depth=12) for a in args] for i, c, args, *_ in calls(cf) if callee_matches(c, r"slice::<impl \[T\]>::get$")]
         oob = agg_blocks(cf, r"PanicReason$", "StorageOutOfBounds")
-        rng = [[describe(cf, o, depth=10) for o in rv[3]] for i, j, p, rv, line in assignments(cf) if rv[0] == "agg" and rv[1].endswith("ops::range::Range")]
+        env_ = closure_env(f, cn)        # the range end may be computed in the parent and captured
+        rng = [[simplify_desc(subst_env(describe(cf, o, depth=14), env_)) for o in rv[3]] for i, j, p, rv, line in assignments(cf) if rv[0] == "agg" and rv[1].endswith("ops::range::Range")]
         okb = bool(gets) and bool(oob) and any(len(r) == 2 and "saturating_add(" in r[1] and r[0] in r[1] for r in rng)
         errs = set()
         for i, j, p, rv, line in assignments(cf):
